@@ -89,3 +89,19 @@ def close_enough(a: tuple[str, ...], b: tuple[str, ...], rel: float) -> bool:
         if abs(x - y) > rel * max(abs(x), abs(y), 1e-300):
             return False
     return True
+
+
+def attrs(o) -> dict:
+    """Instance attributes of an object, however its class stores them: __dict__ and / or __slots__ (a tree under test may
+    have moved a class to __slots__; the harness must still see its state)."""
+    out = dict(getattr(o, "__dict__", {}) or {})
+    for klass in type(o).__mro__:
+        slots = klass.__dict__.get("__slots__", ())
+        for name in ((slots,) if isinstance(slots, str) else slots):
+            if name in ("__dict__", "__weakref__") or name in out:
+                continue
+            try:
+                out[name] = getattr(o, name)
+            except AttributeError:
+                pass
+    return out
